@@ -109,7 +109,8 @@ fn gen_scenario(src: &mut Src, dir: &Path, thorough: bool) -> Scenario {
                 kind = fkind;
             }
             // (malformed JSON is often well-formed YAML: only .json files get a parse error)
-            3 if !rel.ends_with(".yaml") => {
+            // (and a filter that reads with `input?` swallows the parse error: not a failing file then)
+            3 if !rel.ends_with(".yaml") && !filter.contains("input") => {
                 let at = src.below(vals.len() + 1);
                 vals.insert(at, src.pick(&["[1,", "{\"a\" 1}", "tru", "\"unterminated", "]", "[1 2]"]).to_string());
                 kind = Kind::Fail;
@@ -302,7 +303,8 @@ fn judge(sc: &Scenario, st: &State, out: &Outcome, fault: Option<&Fault>) -> Res
         }
     }
     if fault.is_none() {
-        let want_fail = sc.files.iter().any(|f| f.kind == Kind::Fail);
+        // (a halting file ends the run before later files are looked at)
+        let want_fail = first_bad.map_or(false, |b| sc.files[b].kind == Kind::Fail);
         if want_fail && out.status == 0 {
             return Err(("exit-0-although-a-file-failed".into(), format!("stderr: {}", out.stderr.chars().take(200).collect::<String>())));
         }
@@ -334,6 +336,51 @@ fn errors_for(name: &str) -> &'static [&'static str] {
         "copy_file_range" | "sendfile" => &["ENOSPC", "EXDEV"],
         _ => &[],
     }
+}
+
+/// Scenarios without injected fault (many more of them than the fault enumeration can afford): the run
+/// per file without --in-place, then the run in place, judged by the same invariant.
+fn plain_case(src: &mut Src, root: &Path) -> CaseResult {
+    let n = DIRN.fetch_add(1, std::sync::atomic::Ordering::Relaxed);
+    let dir = root.join(format!("p-{n}"));
+    let sample = src.sample;
+    let mut sc = gen_scenario(src, &dir, false);
+    vcore::runner::note_case(|| sc.describe().to_string());
+    sc.reset(&dir);
+    for k in 0..sc.files.len() {
+        let out = Cmd::jaq().args(sc.argv(false, Some(k))).cwd(&dir).run().map_err(|e| CaseFail::new("harness-spawn", e.to_string(), json!({})))?;
+        let failed = out.status != 0;
+        let expect_failed = sc.files[k].kind == Kind::Fail || (sc.files[k].kind == Kind::Halt && sc.filter.contains("halt_error"));
+        if failed != expect_failed {
+            let _ = std::fs::remove_dir_all(&dir);
+            return Err(CaseFail::new("harness-scenario-model-disagrees-with-plain-run", format!("file {k}: plain run exit {} stderr {}", out.status, out.err_str().chars().take(200).collect::<String>()), sc.describe()));
+        }
+        sc.files[k].new = out.stdout;
+    }
+    let out = run_in_place(&sc, &dir, None, None).map_err(|e| CaseFail::new("harness-spawn", e.to_string(), json!({})))?;
+    let st = observe(&sc, &dir);
+    let verdict = judge(&sc, &st, &out, None);
+    let _ = std::fs::remove_dir_all(&dir);
+    if let Err((sig, msg)) = verdict {
+        let mut case = sc.describe();
+        case["fault"] = json!("none");
+        return Err(CaseFail::new(sig, msg, case));
+    }
+    let kinds: Vec<Kind> = sc.files.iter().map(|f| f.kind).collect();
+    let mut ok = CaseOk::new(sc.files.len() > 1 || kinds.iter().any(|k| *k != Kind::Ok) || sc.files.iter().any(|f| f.new.is_empty() != f.content.is_empty()), fnv_str(&[&sc.describe().to_string()])).class("no-fault");
+    if kinds.contains(&Kind::Halt) {
+        ok = ok.class("a-file-halts");
+    }
+    if kinds.contains(&Kind::Fail) {
+        ok = ok.class("a-file-fails");
+    }
+    if sc.files.iter().any(|f| f.kind == Kind::Ok && f.new.is_empty() && !f.content.is_empty()) {
+        ok = ok.class("a-file-gets-no-output");
+    }
+    if sample {
+        ok = ok.desc(Some(sc.describe()));
+    }
+    Ok(ok)
 }
 
 fn scenario_case(src: &mut Src, root: &Path, thorough: bool) -> CaseResult {
@@ -475,7 +522,7 @@ fn scenario_case(src: &mut Src, root: &Path, thorough: bool) -> CaseResult {
 
 pub fn run(mut rep: Report) -> ! {
     rep.set_rule(
-        "scenario = 1-3 files (relative, ./d/, absolute, d/../ paths; .json and .yaml names; 0-5 values plus sometimes a 60-string array, in the thorough tier a 6000-number array; separators newline/blank/none; 9 permission modes incl. read-only and group/other-writable; umask 022/077/002/027) x 14 filters (identity, growing, shrinking, empty, error at a trigger value after 0-2 outputs, path error, halt / halt_error at a trigger value, input-consuming) x output options (pretty, -c, -r, --tab, -cS, -s) x failure position (trigger or malformed text inserted at value k of any file); \
+        "(a) 400 scenarios (thorough: 20 000) are only run plainly and in place without fault and judged; (b) fault enumeration on 24 (thorough: 1 500) scenarios. scenario = 1-3 files (relative, ./d/, absolute, d/../ paths; .json and .yaml names; 0-5 values plus sometimes a 60-string array, in the thorough tier a 6000-number array; separators newline/blank/none; 9 permission modes incl. read-only and group/other-writable; umask 022/077/002/027) x 14 filters (identity, growing, shrinking, empty, error at a trigger value after 0-2 outputs, path error, halt / halt_error at a trigger value, input-consuming) x output options (pretty, -c, -r, --tab, -cS, -s) x failure position (trigger or malformed text inserted at value k of any file); \
          each scenario is run plainly per file (= expected new contents), in place without fault, in place under strace to list the system calls after the first input file is opened, and then once per (call, fault): SIGKILL delivered before the call, and the call failing with each error code that applies (write: ENOSPC/EINTR/EIO; open: EACCES/EMFILE; rename/link: EACCES/EXDEV; chmod: EPERM; stat: EACCES; mmap: ENOMEM; read/close/fsync/truncate: EIO; unlink: EACCES); all calls are enumerated, except that beyond 40 write calls the first 10, last 10 and 16 evenly spaced ones are taken, and EINTR/EIO are injected at every third write only; \
          judged after the process ended: every file holds its original bytes or the complete expected output (a failing file: original; a halting file: either), no file is replaced after one that was kept, files after a failing one are untouched, exit 0 implies every file replaced with its permission bits intact, a process that ended by itself leaves no other directory entry (unless unlink was made to fail), without fault files before a failing one are replaced and the exit status is non-zero iff some file fails; \
          evaluation = one run; non-trivial = fault at or after the creation of the first temporary file",
@@ -487,6 +534,14 @@ pub fn run(mut rep: Report) -> ! {
     // (process creation does not scale beyond ~90 runs/s on this machine, whatever the number of workers)
     rep.workers = rep.workers.min(4);
     let n = rep.n(24, 1_500);
+    {
+        let r = root.clone();
+        let np = rep.n(400, 20_000);
+        let w = rep.workers;
+        rep.workers = 8;
+        rep.random("in-place-runs-without-fault", np, 96, move |src| plain_case(src, &r));
+        rep.workers = w;
+    }
     rep.random("fault-enumeration", n, 96, move |src| scenario_case(src, &root, thorough));
     drop(scratch);
     rep.finish()
